@@ -2853,6 +2853,11 @@ func (dsc *dataStoreCommand) setMove(source, destination, memberName string) (ou
 		return
 	}
 
+	if dsk, dstExists := dsc.getKeyObjectUnlocked(destination); dstExists && dsk.getSet() == nil {
+		output.data = wrongTypeError
+		return
+	}
+
 	_, exists := ss.get(memberName)
 	if !exists {
 		output.data = respInt(0)
